@@ -8,7 +8,7 @@ from typing import Dict, List, Optional, Sequence, Tuple
 from ..model import AnchorError, Program, dotted, kw, last_attr, norm, parent, walk_no_nested
 from ..report import Check
 from .binder import Binder, core
-from .common import calls_in, guards_of, returns_of
+from .common import calls_in, guards_of, need_locals, returns_of
 
 POSITIONS = ["int", "str", "DEFAULT", "ARGS", "KWARGS", "UNKNOWN"]
 SPEC = {
@@ -196,6 +196,7 @@ def r20_3(prog: Program, chk: Check) -> None:
 def r20_4(prog: Program, chk: Check) -> None:
     chk.rule("R20.4", "evaluator control: branch execution follows the varmaps, blocks stop at the first definite return, show_error records the active conditions, Any matches only Any by default", floor=9)
     vi = prog.func("type_evaluation", "EvaluateVisitor.visit_If")
+    need_locals(vi, "condition", "left_result", "right_result")
     site = prog.site("type_evaluation", vi)
     left_if = right_if = None
     for n in vi.body:
@@ -217,6 +218,7 @@ def r20_4(prog: Program, chk: Check) -> None:
     ok2 = ("condition.right_varmap is not None", False) in singles.get("left_result", set()) and ("condition.left_varmap is not None", False) in singles.get("right_result", set())
     chk.ob("R20.4", "type_evaluation::EvaluateVisitor.visit_If::combination", ok and ok2, site, "both results are combined when both branches ran; otherwise the result of the branch that ran is returned")
     vb = prog.func("type_evaluation", "EvaluateVisitor.visit_block")
+    need_locals(vb, "result", "possible_returns")
     ok = False
     for n in walk_no_nested(vb):
         if isinstance(n, ast.If) and norm(n.test) == "isinstance(result, Value)" and isinstance(n.body[-1], ast.Return):
@@ -228,6 +230,7 @@ def r20_4(prog: Program, chk: Check) -> None:
     ok = any("UserRaisedError(message, list(self.active_conditions), argument)" in norm(c) for c in calls_in(se, "UserRaisedError"))
     chk.ob("R20.4", "type_evaluation::EvaluateVisitor.visit_show_error::records-conditions", ok, prog.site("type_evaluation", se), "show_error must record a copy of the active conditions")
     vc = prog.func("type_evaluation", "ConditionEvaluator.visit_Call")
+    need_locals(vc, "exclude_any", "match")
     ok = any(isinstance(n, ast.Assign) and norm(n.targets[0]) == "exclude_any" and isinstance(n.value, ast.Constant) and n.value.value is True for n in walk_no_nested(vc))
     chk.ob("R20.4", "type_evaluation::ConditionEvaluator.visit_Call::is_of_type-default-exclude_any", ok, prog.site("type_evaluation", vc), "is_of_type() must default to exclude_any=True (Any matches only Any)")
     it = prog.func("type_evaluation", "ConditionEvaluator.visit_is_of_type")
@@ -252,6 +255,7 @@ def r20_4(prog: Program, chk: Check) -> None:
         "`not` must swap the two varmaps and negate the condition",
     )
     bo = prog.func("type_evaluation", "ConditionEvaluator.visit_BoolOp")
+    need_locals(bo, "result", "is_and")
     # short-circuit arms: for `and`, an operand with left_varmap None returns a right-only result; for `or`, right_varmap None returns left-only
     ok_and = ok_or = False
     for n in walk_no_nested(bo):
